@@ -187,6 +187,29 @@ def p_field_cycles(v):
     return None
 
 
+def p_assigned(x):
+    """a field object renders what it holds NOW: after its text, short name or synopsis is assigned (as the library itself
+    does when it folds free text into an empty License field), the rendering is that of an object built with the new parts;
+    rendering twice gives the same"""
+    v, w = x
+    for cls, head, body in ((dcopy.LicenseField, 'name', 'text'), (debcon.DescriptionField, 'synopsis', 'text'), (debcon.FormattedTextField, None, 'text')):
+        try:
+            a, b = cls.from_value(v), cls.from_value(w)
+            first = a.dumps()
+            if a.dumps() != first or str(a.dumps()) != first:
+                return '%s: two renderings of one object differ' % cls.__name__
+            want = b.dumps()
+            setattr(a, body, getattr(b, body))
+            if head:
+                setattr(a, head, getattr(b, head))
+            got = a.dumps()
+        except Exception as e:  # noqa
+            return '%s raises %s' % (cls.__name__, type(e).__name__)
+        if got != want:
+            return '%s: after its parts were assigned those of %r the object renders %r; an object built from that value renders %r' % (cls.__name__, w, got, want)
+    return None
+
+
 def p_instance(v):
     """a field object handed to from_value of its own class stands for itself: same name / synopsis, same text, same
     rendering (the copyright classes accept an instance where a value is expected)"""
@@ -252,6 +275,8 @@ def run(ctx):
     fails += [('first_line', x, w) for x, w in ctx.prop('prop:first_line', texts, p_first_line)]
     fails += [('instance', x, w) for x, w in ctx.prop('prop:from_value(instance)', texts[::3], p_instance)]
     fails += [('field_cycles', x, w) for x, w in ctx.prop('prop:field-cycles', texts, p_field_cycles)]
+    pairs_a = [(texts[i], texts[(i * 7 + 3) % len(texts)]) for i in range(0, len(texts), max(1, len(texts) // ctx.n(4000, 40000)))]
+    fails += [('assigned', x, w) for x, w in ctx.prop('prop:rendering-follows-assignment', pairs_a, p_assigned)]
     # texts beyond 1 MiB in which an empty line (or a line end) sits exactly on every multiple of 4096 characters
     def para(i):
         return ['paragraph %d of a long text' % i, 'with a second line', 'and a third']
